@@ -195,7 +195,9 @@ def check(repo: Repo, R) -> None:
                 why="`1*UNIT > 1*n` raises decimal.InvalidOperation (round(Decimal, 20) needs more than the context's 28 digits once operands are ~8 decades apart); "
                 "or the six operators disagree (trichotomy fails)")
     # the six operators decide the same way under the same conditions: they differ in the operator alone
-    if len(sigs) == len(CMP):
+    # (decided only where every operator returns plain two-operand comparisons; any other spelling of one of them — a
+    # delegation to a sibling, say — is left to the shape rules above)
+    if len(sigs) == len(CMP) and all(x[2] != "" for sg in sigs.values() for x in sg):
         ref = sigs["__eq__"]
         odd = sorted(n_ for n_, sg in sigs.items() if sg != ref)
         how = ""
